@@ -84,6 +84,12 @@ CHECKS = [
               "PRNGKeyArray aliases are each compared, over a probe set of arrays/scalars/non-arrays in two contexts, with the side of the law the "
               "documentation states; building errors must be exactly ValueError where the law says so.",
          note="trusted: vf/models/dtypes.py (intersection, scalar kinds); precision classes with Python scalars: totality only"),
+    dict(property_id="C10", level="translation_validation", design_ref="DESIGN.md §5 C10",
+         technique="translation validation per program over a corpus (stdlib + site-packages) and Hypothesis-generated modules: strip exactly the documented additions and compare ASTs with attributes; compare code objects of the loader pipeline with a plain compile; execute generated modules both ways",
+         text="Each program is validated individually: the transformed tree minus one import and one decorator per def/class must equal the original node for "
+              "node including every line/column, the loader's code objects must carry the same names, function first lines and __future__ flags, and "
+              "generated modules behave identically when executed (results, docstrings, traceback lines).",
+         note="corpus = files that compile unmodified on CPython 3.12 (quick: seed-dependent sample of ~1200; thorough: all ~17k); location of the added nodes judged via code objects"),
 ]
 _pending = "check not built yet in this round (will be claimed once its machinery is committed)"
 NOT_APPLICABLE = [dict(property_id=f"C{i:02d}", reason=_pending) for i in range(1, 21)
